@@ -63,6 +63,18 @@ class Injector:
         return inner
 
 
+def _library_calls_only(inj, name, fn):
+    wrapped = inj.wrap(name, fn)
+
+    def inner(*a, **kw):
+        caller = sys._getframe(1).f_globals.get("__name__", "")
+        if caller.startswith("richchk"):
+            return wrapped(*a, **kw)
+        return fn(*a, **kw)
+
+    return inner
+
+
 class DllProxy:
     """the archive library seen by the wrapper: while `inj.dll_fail` is set, the operation is carried out and its
     return value replaced by 0 (StormLib's "failed"), as when the library fails after writing its output"""
@@ -446,6 +458,12 @@ def main():
         osp.replace = inj.wrap("os.replace", os.replace)
         osp.remove = inj.wrap("os.remove", os.remove)
         sio.os = osp
+        # any OTHER state-changing file-system call the library itself makes (from whichever of its modules: the temporary
+        # file helper, a future permission / rename / link step) is numbered and can fail too; calls made by the standard
+        # library or by this harness pass through untouched
+        for fname in ("chmod", "chown", "rename", "renames", "link", "symlink", "mkdir", "makedirs", "truncate", "utime"):
+            if hasattr(os, fname):
+                setattr(os, fname, _library_calls_only(inj, "os." + fname, getattr(os, fname)))
         exc = None
         try:
             if op == "save":
